@@ -58,6 +58,7 @@ let gen_for (which : string) ~(tier : string) ~(seed : int) ~(emit : Sexp.t -> u
     end;
     if i mod 10 = 0 then emit (mk (poly_programs r))
     ;if i mod 4 = 0 then emit (mk (Gen_prog.confusable r))
+    ;if i mod 6 = 0 then emit (mk (Gen_prog.confusable_index r))
   done
 
 let d9_sig ?(local = 0) (a : int) = hole_sig ~opened:a ~local
